@@ -46,6 +46,14 @@ impl Ref {
 fn check(t: &dyn Td, r: &Ref) -> Option<(String, String)> {
     let eps = f64::EPSILON;
     let nf = r.n.max(1) as f64;
+    // is_empty() first: every other read compresses the backlog and could mask a stale answer
+    if t.is_empty() != (r.n == 0) {
+        return Some(("C16/is_empty".into(), format!("is_empty() = {} (read before any other accessor) after {} positive-weight inserts", t.is_empty(), r.n)));
+    }
+    let (mn0, mx0) = (t.min(), t.max());
+    if r.n > 0 && (mn0 != r.min || mx0 != r.max) {
+        return Some((if mn0 != r.min { "C16/min" } else { "C16/max" }.into(), format!("min()/max() = {:e}/{:e} (read before any compressing accessor) but the extreme inserted values are {:e}/{:e}", mn0, mx0, r.min, r.max)));
+    }
     let cnt = t.count();
     let wref = r.w.value();
     if r.unit_only {
